@@ -1299,6 +1299,25 @@ pub broadcast proof fn lemma_map_insert_existing_dom<K, V>(m: Map<K, V>, k: K, v
     assert(m.insert(k, v).dom() =~= m.dom());
 }
 
+// ---------------------------------------------------------------- rename matcher (C04/C03: try_finding_renamed_multi_output_job)
+/// history key `key` records what `down` consumed from some upstream
+spec fn rn_candidate(key: Seq<char>, down: Seq<char>) -> bool {
+    str_ends_with(key, key_suffix(down))
+}
+
+/// the upstream id such a key names
+spec fn rn_cand_id(key: Seq<char>) -> Seq<char> {
+    str_split_once(key, SEP()).unwrap().0
+}
+
+spec fn rn_some(o: Option<String>) -> bool { o is Some }
+spec fn rn_id(o: Option<String>) -> Seq<char> { o.unwrap()@ }
+
+/// how many outputs the historical upstream `c` shares with the upstream that is now missing
+spec fn rn_overlap(c: Seq<char>, missing: Seq<char>) -> nat {
+    parts_strings(c).intersect(parts_strings(missing)).len()
+}
+
 // ---------------------------------------------------------------- wake-ups (C05: no decision is lost)
 // The predicates are opaque: callers of the helpers carry them around without the quantifiers inside.
 /// job `u` will be looked at again: a signal for it is queued, or it was already considered in this generation
